@@ -92,10 +92,11 @@ def run(ctx) -> None:
 
     ctx.rule("C17.formulation", "formulation: loopless_solution poses the documented cycle-removal problem (shared with C17)", floor=8)
     ctx.guard(loopform.check_loopless_solution, ctx, "C17.formulation")
+    ctx.guard(loopform.check_fva_iter, ctx, "C05.step")
     # a loopless step that leaves something behind on the model narrows the problem of every later reaction
     from . import c14
 
-    ctx.rule("C05.step", "T1/T2: the per-reaction loopless step leaves no residue on the model the later reactions are ranged on", floor=1)
+    ctx.rule("C05.step", "the per-reaction loopless step: cycle-free problem solved for every internal reaction (evaluated); no residue on the model (T1/T2)", floor=2)
     c14.check_item_helpers(ctx, "C05.step", (("cobra.flux_analysis.loopless", "loopless_fva_iter"),))
     fns = [ctx.prog.func(*fa.FVA), ctx.prog.func("cobra.flux_analysis.variability", "find_blocked_reactions"), ctx.prog.func("cobra.flux_analysis.helpers", "normalize_cutoff")]
     check_none_defaults(ctx, "C05.nonedefault", fns)
